@@ -49,6 +49,8 @@ MUTANTS = [
     ("c04-conv-clock", "C04", ABS, "time=time - current_point_in_time))\n                current_point_in_time = time", "time=time - current_point_in_time))", {"CONV"}),
     ("c04-cutoff-sort-first", "C04", ABS, "                        message_pairing[1].time = message_pairing[0].time + reduced_length\n\n        self.normalise_absolute()", "                        message_pairing[1].time = message_pairing[0].time + reduced_length", {"ABS-SORTED"}),
     # ---- C05
+    ("c05-floor-minus-one", "C05", ABS, "(message_original_time // step_size) * step_size for", "((message_original_time // step_size) - 1) * step_size for", {"NEAR"}),
+    ("c05-double-step", "C05", ABS, "positions_left[i] + step_sizes[i] for i in", "positions_left[i] + 2 * step_sizes[i] for i in", {"NEAR"}),
     ("c05-argmin-dist", "C05", "scoda/misc/util.py", "candidate_distance = abs(candidate - element)", "candidate_distance = abs(candidate) - element", {"ARGMIN"}),
     ("c05-pitch-only-key", "C05", ABS, "note_key = (msg.channel, msg.note)", "note_key = msg.note", {"KEY2"}),
     ("c05-unsorted-removal", "C05", ABS, "enumerate(sorted(original_indices_to_remove))", "enumerate(original_indices_to_remove)", {"IDX1"}),
